@@ -179,7 +179,7 @@ impl LangInterpreter for Italian {
                 }
             }
             "milione" if b.is_range_free(6, 8) => {
-                if b.len() != 1 || b.peek(1) != b"1" {
+                if b.peek(6) != b"1" && b.peek(6) != b"000001" {
                     Err(Error::NaN)
                 } else {
                     b.shift(6)
